@@ -38,7 +38,10 @@ def spec_of(i, kind, rng):
     elif kind == "badbuild":
         kw.update(exe="exeB", exe_build="make bad")
     elif kind == "noadapter":
-        kw.update(adapter_ok=False)
+        # a plain name that is no built-in adapter - the same name as the custom adapter other runs may use
+        kw.update(adapter_ok=False, adapter="MyLog")
+    if kind in ("ok", "failk", "fail0", "done") and rng.random() < 0.35:
+        kw.update(adapter={"MyLog": "my_log.py"})       # a valid custom adapter (file in the configuration's directory)
     return mh.Spec("B%d" % i, **kw)
 
 
@@ -84,15 +87,17 @@ def in_process_part(chk, exprs):
             case = dict(kinds=kinds, specs=[s.describe() for s in specs], scheduler=sched, seed=seed, faulty=faulty)
             f = os.path.join(d, "c10.data")
             fc = os.path.join(d, "control.data")
+            with open(os.path.join(d, "my_log.py"), "w") as fh:
+                fh.write("from rebench.interop.rebench_log_adapter import RebenchLogAdapter\n\n\nclass MyLogAdapter(RebenchLogAdapter):\n    pass\n\n\nclass MyLog(MyLogAdapter):\n    pass\n")
             # runs complete from an earlier session
             done = [s for s, k in zip(specs, kinds) if k == "done"]
             if done:
-                pre = mh.run_impl(specs, f, "batch", [], failing, run_filter=["s:%s:%s" % (s.suite, s.name) for s in done])
+                pre = mh.run_impl(specs, f, "batch", [], failing, run_filter=["s:%s:%s" % (s.suite, s.name) for s in done], config_dir=d)
                 if isinstance(pre.result, str) or pre.result is not True:
                     chk.violation("C10 a session of succeeding runs succeeds", case, True, pre.result)
                     continue
                 shutil.copy(f, fc)
-            obs = mh.run_impl(specs, f, sched, argv, failing, seed=seed)
+            obs = mh.run_impl(specs, f, sched, argv, failing, seed=seed, config_dir=d)
             if isinstance(obs.result, str):
                 chk.violation("C10 a session with failing runs ends without an exception", case, "no exception", "%s %r" % (obs.result, obs.ses.exc))
                 continue
@@ -121,7 +126,7 @@ def in_process_part(chk, exprs):
             aff = affected(kinds)
             keep = [s for i, s in enumerate(specs) if i not in aff]
             if keep and aff:
-                ctl = mh.run_impl(keep, fc, sched, argv, failing, seed=seed)
+                ctl = mh.run_impl(keep, fc, sched, argv, failing, seed=seed, config_dir=d)
                 if isinstance(ctl.result, str):
                     chk.violation("C10 the control session ends without an exception", case, "no exception", ctl.result)
                     continue
